@@ -5,19 +5,19 @@
 EXTENDS Integers, Sequences, FiniteSets, TLC, Json, IOUtils
 
 Trace == ndJsonDeserialize(IOEnv.TRACE)
-VARIABLES l, pend, out, under, over
+VARIABLES l, pend, out, under, over, snaps
 \* pend: goroutine -> [a |-> call record, st |-> "called" | "done", res |-> model result]; out: result of the last sequential step
-svars == <<under, over>>
-lvars == <<l, pend, out, under, over>>
+svars == <<under, over, snaps>>
+lvars == <<l, pend, out, under, over, snaps>>
 T == Trace[l]
 Is(op) == l <= Len(Trace) /\ T.op = op /\ l' = l + 1
 View(k) == IF over[k] = -1 THEN 0 ELSE IF over[k] # 0 THEN over[k] ELSE under[k]
 
 LInit == /\ TLCSet(1, 1) /\ l = 1 /\ pend = <<>> /\ out = <<>>
-         /\ under = [k \in 1..4 |-> 0] /\ over = [k \in 1..4 |-> 0]
+         /\ under = [k \in 1..4 |-> 0] /\ over = [k \in 1..4 |-> 0] /\ snaps = <<>>
 
 LReset == /\ Is("reset") /\ pend' = <<>> /\ out' = <<>>
-          /\ under' = [k \in 1..4 |-> 0] /\ over' = [k \in 1..4 |-> 0]
+          /\ under' = [k \in 1..4 |-> 0] /\ over' = [k \in 1..4 |-> 0] /\ snaps' = <<>>
 
 LCall == /\ Is("call") /\ T.g \notin DOMAIN pend
          /\ pend' = [g \in DOMAIN pend \cup {T.g} |-> IF g = T.g THEN [a |-> T.a, st |-> "called", res |-> <<>>] ELSE pend[g]]
@@ -25,12 +25,16 @@ LCall == /\ Is("call") /\ T.g \notin DOMAIN pend
 
 \* the sequential specification: effect and result of one operation
 DoOp(a) ==
-  CASE a.op = "put" -> over' = [over EXCEPT ![a.k] = a.v] /\ UNCHANGED under /\ out' = [ok |-> TRUE]
-    [] a.op = "del" -> over' = [over EXCEPT ![a.k] = -1] /\ UNCHANGED under /\ out' = [ok |-> TRUE]
+  CASE a.op = "put" -> over' = [over EXCEPT ![a.k] = a.v] /\ UNCHANGED <<under, snaps>> /\ out' = [ok |-> TRUE]
+    [] a.op = "del" -> over' = [over EXCEPT ![a.k] = -1] /\ UNCHANGED <<under, snaps>> /\ out' = [ok |-> TRUE]
+    \* GetSnapshot freezes the current view; reads through the snapshot see that frozen view
+    [] a.op = "snap" -> snaps' = [i \in DOMAIN snaps \cup {a.sid} |-> IF i = a.sid THEN [k \in 1..4 |-> View(k)] ELSE snaps[i]]
+                        /\ UNCHANGED <<under, over>> /\ out' = [ok |-> TRUE]
+    [] a.op = "sget" -> UNCHANGED svars /\ out' = [ok |-> snaps[a.sid][a.k] # 0, v |-> snaps[a.sid][a.k]]
     [] a.op = "get" -> UNCHANGED svars /\ out' = [ok |-> View(a.k) # 0, v |-> View(a.k)]
     [] a.op = "has" -> UNCHANGED svars /\ out' = [ok |-> View(a.k) # 0]
-    [] a.op = "flush" -> under' = [k \in 1..4 |-> View(k)] /\ over' = [k \in 1..4 |-> 0] /\ out' = [ok |-> TRUE]
-    [] a.op = "drop" -> UNCHANGED under /\ over' = [k \in 1..4 |-> 0] /\ out' = [ok |-> TRUE]
+    [] a.op = "flush" -> under' = [k \in 1..4 |-> View(k)] /\ over' = [k \in 1..4 |-> 0] /\ UNCHANGED snaps /\ out' = [ok |-> TRUE]
+    [] a.op = "drop" -> UNCHANGED <<under, snaps>> /\ over' = [k \in 1..4 |-> 0] /\ out' = [ok |-> TRUE]
     [] a.op = "nfp" -> UNCHANGED svars /\ out' = [n |-> Cardinality({k \in 1..4 : over[k] # 0})]
     [] a.op = "uget" -> UNCHANGED svars /\ out' = [ok |-> under[a.k] # 0, v |-> under[a.k]]
 
